@@ -127,6 +127,28 @@ def make_case(args):
         except Exception as e:
             rec["crash"] = f"{type(e).__name__}: {str(e)[:240]}"
         out.append(rec)
+    # storage variants of the in-memory block that dask's rechunking removes (it concatenates chunks into fresh C-ordered
+    # arrays): direction-major storage and strided views, float32 and float64, spectral dimensions split
+    if icase % 3 == 1:
+        d0, aux0 = make_world(rng)
+        lead0 = [d for d in d0.dims if d not in ("freq", "dir")]
+        d0 = d0.transpose(*lead0, "freq", "dir").astype(rng.choice(["float32", "float64"]))
+        variants = [("dir_major", d0.transpose(*lead0, "dir", "freq").copy(data=np.ascontiguousarray(d0.transpose(*lead0, "dir", "freq").values)))]
+        if d0.sizes["dir"] >= 12:
+            variants.append(("strided_dir", d0.isel(dir=slice(None, None, 2))))
+        variants.append(("strided_freq", d0.isel(freq=slice(1, None, 1)).isel(freq=slice(None, None, 2)) if d0.sizes["freq"] >= 10 else d0.isel(freq=slice(1, None))))
+        for vname, dv in variants:
+            for chv in ({"dir": max(2, dv.sizes["dir"] // 3)}, {"freq": 3, "dir": 5}, {lead0[0]: 1}):
+                op = rng.choice(["ptm1", "ptm2", "ptm3"])
+                rec = dict(op=f"{vname}:{op}", icase=icase, chunks=dict(chv), scheduler="synchronous", workers=None, dims=list(dv.dims),
+                           shape=[int(dv.sizes[d]) for d in dv.dims], spectral_split=("dir" in chv or "freq" in chv), dtype=str(dv.dtype))
+                try:
+                    ref = norm(op, opcat.canon(compute(C[op](dv, aux0))), dv)
+                    got = norm(op, opcat.canon(compute(C[op](dv.chunk(chv), aux0), scheduler="synchronous")), dv)
+                    rec["diff"] = opcat.compare(got, ref, rel=2e-5 if str(dv.dtype) == "float32" else 1e-9)
+                except Exception as e:
+                    rec["crash"] = f"{type(e).__name__}: {str(e)[:240]}"
+                out.append(rec)
     # concurrent watershed calls under the threaded scheduler: many spectra, one per chunk, two datasets of different grid
     # shapes computed in the same dask.compute call (static C buffers, any Python-level shared scratch space)
     if icase % 3 == 0:
